@@ -319,6 +319,43 @@ func (m c12) Run(c *core.Ctx) {
 		}
 		c.Nontrivial("privacy " + mod)
 	}
+	// nested mutable attributes (empty and non-empty containers) of a builtin module are private per VM too
+	idx++
+	if idx%c.NBatch == c.Batch && c.Begin(func() string { return "privacy nested containers" }) {
+		p := &Program{Src: "param id\np := import(\"plugins\")\nkey := \"k\" + id\np.registry[key] = true\np.nested.inner[key] = id\np.nested.arr[0][key] = id\np.state.n++\np.log[0] += 10\np.buf[0] += 1\np.sync[key] = id\nq := import(\"plugins\")\nreturn [len(q.registry), len(q.nested.inner), len(q.nested.arr[0]), q.state.n, q.log[0], q.buf[0], len(q.sync)]", Builtin: []string{"plugins"}}
+		for _, enc := range []bool{false, true} {
+			for _, opt := range []int{-1, 0} {
+				cr := compileProgram(p, opt)
+				if cr.err != nil {
+					c.Inconclusive("nested privacy probe does not compile: " + cr.err.Error())
+					continue
+				}
+				bc := cr.bc
+				if enc {
+					b, err, pan := safeEncode(bc)
+					if err != nil || pan != "" {
+						continue
+					}
+					d, err, pan := safeDecode(b, moduleMapFor(p))
+					if err != nil || pan != "" {
+						c.Violation("C12|decode-fails", "decode fails: "+fmt.Sprint(err)+pan, c12wit{Program: p})
+						continue
+					}
+					bc = d
+				}
+				for round := 1; round <= 3; round++ {
+					o := canon.RunBytecode(bc, canon.RunOpts{Args: []ugo.Object{ugo.Int(round)}})
+					want := "[i:1,i:1,i:1,i:1,i:10,i:1,i:1]"
+					c.Count("privacy_probes")
+					if o.Value != want {
+						c.Violation("C12|builtin-module-shared|nested", "nested state of an imported builtin module written by one VM is visible to the next VM over the same Bytecode: got "+o.Value+o.ErrMsg+" want "+want, c12wit{Program: p, Got: o})
+						break
+					}
+				}
+			}
+		}
+		c.Nontrivial("privacy nested")
+	}
 	// generated graphs
 	n := c.Pick(150, 3000)
 	o := gen.Opts{MaxStmts: 22, MaxDepth: 4, ExprDepth: 2, Try: 0.4, Throw: 0.15, Funcs: 0.7, Shadow: 0.1, LogProb: 0.1, Globals: true, DeepRecursion: 10, Faults: 0.003, ImportProb: 0.3}
